@@ -60,16 +60,85 @@ func (m *Mutex) unlockNoPoint() {
 	m.owner = 0
 }
 
-// RWMutex is modelled as an exclusive lock (sound for safety: fewer
-// concurrent readers never hide a writer conflict; it may hide reader
-// parallelism only).
-type RWMutex struct{ Mutex }
+// RWMutex mirrors sync.RWMutex: any number of readers or one writer. Writer
+// preference (a waiting writer blocking new readers) is not modelled: the
+// model admits every behaviour of the real lock except that a recursive read
+// lock never deadlocks against a waiting writer.
+type RWMutex struct {
+	id      int
+	writer  int // thread id + 1, 0 = no writer
+	readers int
+}
+
+func (m *RWMutex) init() {
+	if m.id == 0 {
+		m.id = csched.NewObj(func() uint64 { return uint64(m.writer)<<16 | uint64(m.readers) })
+	}
+}
+
+// Lock mirrors sync.RWMutex.Lock.
+func (m *RWMutex) Lock() {
+	m.init()
+	csched.SchedPoint("lock", m.id, func() bool { return m.writer == 0 && m.readers == 0 })
+	m.writer = csched.CurrentThread() + 1
+}
+
+// TryLock mirrors sync.RWMutex.TryLock.
+func (m *RWMutex) TryLock() bool {
+	m.init()
+	csched.SchedPoint("trylock", m.id, nil)
+	if m.writer != 0 || m.readers != 0 {
+		return false
+	}
+	m.writer = csched.CurrentThread() + 1
+	return true
+}
+
+// Unlock mirrors sync.RWMutex.Unlock.
+func (m *RWMutex) Unlock() {
+	m.init()
+	csched.SchedPoint("unlock", m.id, nil)
+	if m.writer == 0 {
+		panic("sync: Unlock of unlocked RWMutex")
+	}
+	m.writer = 0
+}
 
 // RLock mirrors sync.RWMutex.RLock.
-func (m *RWMutex) RLock() { m.Lock() }
+func (m *RWMutex) RLock() {
+	m.init()
+	csched.SchedPoint("rlock", m.id, func() bool { return m.writer == 0 })
+	m.readers++
+}
+
+// TryRLock mirrors sync.RWMutex.TryRLock.
+func (m *RWMutex) TryRLock() bool {
+	m.init()
+	csched.SchedPoint("tryrlock", m.id, nil)
+	if m.writer != 0 {
+		return false
+	}
+	m.readers++
+	return true
+}
 
 // RUnlock mirrors sync.RWMutex.RUnlock.
-func (m *RWMutex) RUnlock() { m.Unlock() }
+func (m *RWMutex) RUnlock() {
+	m.init()
+	csched.SchedPoint("runlock", m.id, nil)
+	if m.readers == 0 {
+		panic("sync: RUnlock of unlocked RWMutex")
+	}
+	m.readers--
+}
+
+type rlocker RWMutex
+
+func (r *rlocker) Lock()   { (*RWMutex)(r).RLock() }
+func (r *rlocker) Unlock() { (*RWMutex)(r).RUnlock() }
+
+// RLocker mirrors sync.RWMutex.RLocker.
+func (m *RWMutex) RLocker() Locker { return (*rlocker)(m) }
 
 type waiter struct{ signalled bool }
 
@@ -236,4 +305,162 @@ func (p *Pool) Put(x interface{}) {
 		PoolObserver("put", x)
 	}
 	p.items = append(p.items, x)
+}
+
+// Map mirrors sync.Map: every operation is one scheduling point; Range visits
+// the entries in insertion order (the real order is unspecified).
+type Map struct {
+	id   int
+	keys []interface{}
+	vals map[interface{}]interface{}
+}
+
+func (m *Map) init() {
+	if m.id == 0 {
+		m.vals = map[interface{}]interface{}{}
+		m.id = csched.NewObj(func() uint64 { return uint64(len(m.keys)) })
+	}
+}
+
+func (m *Map) drop(key interface{}) {
+	for i, k := range m.keys {
+		if k == key {
+			m.keys = append(m.keys[:i], m.keys[i+1:]...)
+			break
+		}
+	}
+	delete(m.vals, key)
+}
+
+// Load mirrors sync.Map.Load.
+func (m *Map) Load(key interface{}) (interface{}, bool) {
+	m.init()
+	csched.SchedPoint("map-load", m.id, nil)
+	v, ok := m.vals[key]
+	return v, ok
+}
+
+// Store mirrors sync.Map.Store.
+func (m *Map) Store(key, value interface{}) {
+	m.init()
+	csched.SchedPoint("map-store", m.id, nil)
+	if _, ok := m.vals[key]; !ok {
+		m.keys = append(m.keys, key)
+	}
+	m.vals[key] = value
+}
+
+// Swap mirrors sync.Map.Swap.
+func (m *Map) Swap(key, value interface{}) (interface{}, bool) {
+	m.init()
+	csched.SchedPoint("map-swap", m.id, nil)
+	old, ok := m.vals[key]
+	if !ok {
+		m.keys = append(m.keys, key)
+	}
+	m.vals[key] = value
+	return old, ok
+}
+
+// LoadOrStore mirrors sync.Map.LoadOrStore.
+func (m *Map) LoadOrStore(key, value interface{}) (interface{}, bool) {
+	m.init()
+	csched.SchedPoint("map-loadorstore", m.id, nil)
+	if v, ok := m.vals[key]; ok {
+		return v, true
+	}
+	m.keys = append(m.keys, key)
+	m.vals[key] = value
+	return value, false
+}
+
+// LoadAndDelete mirrors sync.Map.LoadAndDelete.
+func (m *Map) LoadAndDelete(key interface{}) (interface{}, bool) {
+	m.init()
+	csched.SchedPoint("map-loadanddelete", m.id, nil)
+	v, ok := m.vals[key]
+	if ok {
+		m.drop(key)
+	}
+	return v, ok
+}
+
+// Delete mirrors sync.Map.Delete.
+func (m *Map) Delete(key interface{}) {
+	m.init()
+	csched.SchedPoint("map-delete", m.id, nil)
+	m.drop(key)
+}
+
+// CompareAndSwap mirrors sync.Map.CompareAndSwap.
+func (m *Map) CompareAndSwap(key, old, new interface{}) bool {
+	m.init()
+	csched.SchedPoint("map-cas", m.id, nil)
+	if v, ok := m.vals[key]; ok && v == old {
+		m.vals[key] = new
+		return true
+	}
+	return false
+}
+
+// CompareAndDelete mirrors sync.Map.CompareAndDelete.
+func (m *Map) CompareAndDelete(key, old interface{}) bool {
+	m.init()
+	csched.SchedPoint("map-cad", m.id, nil)
+	if v, ok := m.vals[key]; ok && v == old {
+		m.drop(key)
+		return true
+	}
+	return false
+}
+
+// Range mirrors sync.Map.Range over a snapshot of the keys.
+func (m *Map) Range(f func(key, value interface{}) bool) {
+	m.init()
+	csched.SchedPoint("map-range", m.id, nil)
+	keys := append([]interface{}(nil), m.keys...)
+	for _, k := range keys {
+		v, ok := m.vals[k]
+		if !ok {
+			continue
+		}
+		if !f(k, v) {
+			return
+		}
+	}
+}
+
+// Clear mirrors sync.Map.Clear.
+func (m *Map) Clear() {
+	m.init()
+	csched.SchedPoint("map-clear", m.id, nil)
+	m.keys = nil
+	m.vals = map[interface{}]interface{}{}
+}
+
+// OnceFunc mirrors sync.OnceFunc.
+func OnceFunc(f func()) func() {
+	var o Once
+	return func() { o.Do(f) }
+}
+
+// OnceValue mirrors sync.OnceValue.
+func OnceValue[T any](f func() T) func() T {
+	var o Once
+	var v T
+	return func() T {
+		o.Do(func() { v = f() })
+		return v
+	}
+}
+
+// OnceValues mirrors sync.OnceValues.
+func OnceValues[T1, T2 any](f func() (T1, T2)) func() (T1, T2) {
+	var o Once
+	var v1 T1
+	var v2 T2
+	return func() (T1, T2) {
+		o.Do(func() { v1, v2 = f() })
+		return v1, v2
+	}
 }
